@@ -347,6 +347,11 @@ fn assemble(contents: &StaticSource) -> Result<Air> {
     let parser = lace::AsmParser::new(contents.src())?;
     let mut air = parser.parse()?;
     air.backpatch()?;
+    // Label distances are only range-checked on emission: do it here, so that `check` and `watch`
+    // reject what `compile` and `run` reject
+    for stmt in &air {
+        stmt.emit()?;
+    }
     Ok(air)
 }
 
